@@ -132,6 +132,8 @@ def load_corpus():
     allp = sorted(json.loads(l)['id'] for l in open(os.path.join(HERE, 'properties.jsonl')))
     if os.path.isdir(nd):
         for d in sorted(os.listdir(nd)):
+            if not os.path.isdir(os.path.join(nd, d)):
+                continue
             for fn in sorted(os.listdir(os.path.join(nd, d))):
                 if fn.endswith('.diff'):
                     ms.append({'id': 'ns-%s-%s' % (d, fn[:-5].replace('patch', '')), 'kind': 'neutral', 'rules': [], 'properties': allp,
